@@ -44,6 +44,8 @@ func getStatusWithMetadata(
 	updatedStatus.ResourcesStatus.Allocated = metaData.Allocated
 	if !metaData.Preemptible {
 		updatedStatus.ResourcesStatus.AllocatedNonPreemptible = metaData.Allocated
+	} else if len(updatedStatus.ResourcesStatus.AllocatedNonPreemptible) > 0 {
+		updatedStatus.ResourcesStatus.AllocatedNonPreemptible = nil
 	}
 
 	return updatedStatus
